@@ -8,6 +8,10 @@
          (the re-indexing step for a given enumeration of the surviving vertices)
      hyps <same arguments as post>
          (Model/VoronoiPeriodic.post_hyps: pvor_ok and trivalent_ok of the record after the optional shift)
+     hypst <same arguments as post>
+         (Model/VoronoiPeriodicTol.post_hyps_t: pvor_t_ok and trivalent_ok)
+     dual <same arguments as post> <tolS> <N> x y ... <nT> (i ox oy  j ox oy  k ox oy)...
+         (Model/VoronoiDual.post_dual_hyp: dual_ok for the seeds (on the scale of the shifted vertices) and one triangle per Voronoi vertex)
    Output: "key tokens" lines then "end". *)
 open Model
 open Hexio
@@ -116,6 +120,33 @@ let cmd_hyps c =
    | None -> out "hyps" "N"
    | Some (p, t) -> out "hyps" (s_bool p ^ " " ^ s_bool t))
 
+let cmd_hypst c =
+  let shift = next_bool c in
+  let s = next_z c in
+  let points = next_list c next_zpair in
+  let vs = next_list c next_zpair in
+  let rv = next_list c next_zpair in
+  let rp = next_list c next_natpair in
+  let v = { vertices = vs; ridge_vertices = rv; ridge_points = rp } in
+  (match post_hyps_t shift s points v with
+   | None -> out "hypst" "N"
+   | Some (p, t) -> out "hypst" (s_bool p ^ " " ^ s_bool t))
+
+let cmd_dual c =
+  let shift = next_bool c in
+  let s = next_z c in
+  let points = next_list c next_zpair in
+  let vs = next_list c next_zpair in
+  let rv = next_list c next_zpair in
+  let rp = next_list c next_natpair in
+  let v = { vertices = vs; ridge_vertices = rv; ridge_points = rp } in
+  let tols = next_z c in
+  let pts = next_list c next_zpair in
+  let tt = next_list c (fun c -> let a = read_site c in let b = read_site c in let cc = read_site c in ((a, b), cc)) in
+  (match post_dual_hyp shift s tols points pts v tt with
+   | None -> out "dual" "N"
+   | Some b -> out "dual" (s_bool b))
+
 let cmd_reindex c =
   let vs = next_list c next_zpair in
   let order = next_list c next_nat in
@@ -139,6 +170,8 @@ let () =
           | "post" -> cmd_post c
           | "reindex" -> cmd_reindex c
           | "hyps" -> cmd_hyps c
+          | "hypst" -> cmd_hypst c
+          | "dual" -> cmd_dual c
           | "replicate" -> cmd_replicate c
           | _ -> out "error" ("unknown command " ^ cmd))
        with Failure m -> out "error" m);
